@@ -38,6 +38,8 @@ func module(rootPkg bool) pipe.Tree {
 
 var ops = []string{
 	"edit:a", "edit:b", "edit:c", "extra:b", "note:c", "symlink:b", "rmgen:a", "editgen:c",
+	// files of the root package's own directory that sort after "gengo.sum" (no-ops without a root package)
+	"edit:root", "note:root",
 	"rmsum", "sum:truncate", "sum:garbage", "sum:swap", "sum:crlf",
 	"run:all", "run:force", "run:fail-b", "run:subset-c", "run:nonall",
 }
@@ -55,9 +57,19 @@ func applyEdit(t pipe.Tree, op string) pipe.Tree {
 		}
 	}
 	switch {
+	case op == "note:root":
+		if _, ok := t["root.go"]; ok {
+			toggle("notes.txt", "a note next to the module file\n")
+		}
 	case strings.HasPrefix(op, "edit:"):
 		p := op[5:]
 		f := p + "/" + p + ".go"
+		if p == "root" {
+			if _, ok := t["root.go"]; !ok {
+				return t
+			}
+			f = "root.go"
+		}
 		const mark = "\n// edited\nvar Edited = 1\n"
 		if strings.HasSuffix(t[f], mark) {
 			t[f] = strings.TrimSuffix(t[f], mark)
